@@ -17,7 +17,7 @@ structure FnVoidOK (G : GCtx) (g : String) (fd : FnDef) (I : FnInfo) (stmts : Li
   vars : ∀ m ∈ codeVars (cgFn G.mod I.φ fd stmts none I.scopes0 I.vm0 I.lm0), I.N m
   slot : ∀ m, I.N m → I.σ m < (fnParts G.mod I.φ fd stmts none I.scopes0 I.vm0 I.lm0).envE.nv
   frame : (fnParts G.mod I.φ fd stmts none I.scopes0 I.vm0 I.lm0).envE.nv ≤ G.F
-  okS : Frag.okGSs false stmts = true
+  okS : Frag.okGSs false true stmts = true
   wsS : Frag.wsGSs G.mod g I.φ [] stmts (fnParts G.mod I.φ fd stmts none I.scopes0 I.vm0 I.lm0).envB = true
   tParams : ∀ p ∈ fd.params, p.name ∈ I.T
   tIdents : ∀ x ∈ Frag.identsGSs stmts, x ∈ I.T
@@ -36,6 +36,10 @@ def SimCallV (G : GCtx) (g : String) (frames : List Frame) (mp : Int) (args : Li
         RunsCall G g frames mp (args.map (⟨·, none⟩) ++ stk) mem st.world stk' mem' st'.world ∧ MemLe mp mem mem'
   | (.error (.fatal kd m sp), st') =>
     kd ≠ "StackOverFlow" → RunsCallF G g frames mp (args.map (⟨·, none⟩) ++ stk) mem st.world kd m sp st'.world
+  | (.error (.throw msg sp), st') =>
+    st' = { st with out := st'.out, heap := st'.heap } ∧
+      ∃ mem', RunsCallT G g frames mp (args.map (⟨·, none⟩) ++ stk) stk mem st.world msg sp mem' st'.world ∧
+        MemLe mp mem mem'
   | (.error (.unsupported _), _) => True
   | (.error .timeout, _) => True
   | _ => False
@@ -102,11 +106,11 @@ theorem callV_correct (G : GCtx) (hG : G.OK) (fuel : Nat) (g : String) (fd : FnD
   have hhi : mp + (P.envE.nv : Int) < (G.lim.memory : Int) := by omega
   -- the activation
   obtain ⟨A, hAdef⟩ : ∃ A : Act, A = Act.mk (mangleFnName G.mod fd.name) fd.name P.cleanup frames
-    (mp + (P.envE.nv : Int)) I.c I.σ I.lab I.N I.T P.envE.nv I.φ := ⟨_, rfl⟩
+    (mp + (P.envE.nv : Int)) I.c I.σ I.lab I.N I.T P.envE.nv I.φ true := ⟨_, rfl⟩
   have hA : A.OK G := by
     rw [hAdef]
     exact ⟨hFn.code, hFn.inj, hslot, by show 0 ≤ mp + (P.envE.nv : Int) - (P.envE.nv : Int); omega, hhi, hFn.phi,
-      hFn.key, hG.println⟩
+      hFn.key, hG.println, rfl⟩
   -- the placement of the pieces
   obtain ⟨hpl1234, hpl5⟩ := hplaced.append
   obtain ⟨hpl123, hpl4⟩ := hpl1234.append
@@ -169,7 +173,8 @@ theorem callV_correct (G : GCtx) (hG : G.OK) (fuel : Nat) (g : String) (fd : FnD
     push_cast
     rw [Int.add_mul]
     omega
-  have hS := hPSs m rfl A hA [] (P.envB.scopes.drop 1) 1 stmts P.envB spec1 (1 + nI P.pcode) stk mem1 hFn.okS
+  have hS := hPSs m rfl A hA [] (P.envB.scopes.drop 1) 1 stmts P.envB spec1 (1 + nI P.pcode) stk mem1
+    (by rw [hAdef]; exact hFn.okS)
     (by rw [hAT]; exact hFn.tIdents) (by rw [hAsrc, hAφ]; exact hwsS)
     (by rw [hAsrc, hAφ, hAN, ← hsc]; exact fun m hm => hvars m (Or.inl (Or.inl (Or.inr hm))))
     (by rw [hAsrc, hAφ, hAlab, hAσ, hAc, ← hsc]; exact hpl3) (Nat.le_refl 1) rfl
@@ -196,10 +201,15 @@ theorem callV_correct (G : GCtx) (hG : G.OK) (fuel : Nat) (g : String) (fd : FnD
     have hout1 : spec1.world = st.world := by rw [← hspec1]; rfl
     cases c <;> simp only [] <;> first | trivial | exact False.elim hS | skip
     · -- return
-      obtain ⟨hst1, mem2, hrunS, hmlS⟩ := hS
+      obtain ⟨_, hst1, mem2, hrunS, hmlS⟩ := hS
       rw [hAfn, hArest, hAmp, hAlab, hAcl, hlabC, hout1] at hrunS
       refine ⟨?_, mem2, _, Or.inr rfl, RunsCall.intro hFn.code hi0 hhi (hrunP.trans hrunS) hiC hiR,
         (hmlP.mono hmono).trans (hmlS.mono hmono)⟩
+      rw [hst1, ← hspec1]
+    · -- a statement throws
+      obtain ⟨hst1, mem2, hTS, hmlS, _⟩ := hS
+      rw [hAfn, hArest, hAmp, hout1] at hTS
+      refine ⟨?_, mem2, RunsCallT.intro hFn.code hi0 hhi hrunP hTS, (hmlP.mono hmono).trans (hmlS.mono hmono)⟩
       rw [hst1, ← hspec1]
     · intro hk
       have hS' := hS hk
@@ -231,7 +241,7 @@ theorem GCtx.OK.withPolls {G : GCtx} (h : G.OK) (p : Nat) : (G.withPolls p).OK :
   { prog := fun g fd hK hf => by
       obtain ⟨I, stmts, e, hFn⟩ := h.prog g fd hK hf
       exact ⟨I, stmts, e, hFn.withPolls p⟩
-    room := h.room, base := h.base, println := h.println, noPrintFn := h.noPrintFn }
+    room := h.room, base := h.base, println := h.println, noPrintFn := h.noPrintFn, noThrowFn := h.noThrowFn }
 
 /-- **`Core.Run` on a top-level call of a function without trailing expression** (the entry
 function `main`): no caller frame, operand stack within its limit. For every quantum at least as
@@ -253,6 +263,10 @@ theorem entry_run (G : GCtx) (hG : G.OK) (fuel : Nat) (g : String) (fd : FnDef) 
       kd ≠ "StackOverFlow" → ∃ K, ∀ quantum, K ≤ quantum → ∀ vfuel, ∃ s',
         run G.code G.lim quantum none (vfuel + 1) (mkS G.s [⟨mangleFnName G.mod g, 0⟩] mp 0 stk mem st.world) =
           .fatal kd m fsp s' ∧ s'.st = { G.s.st with out := st'.out, heap := st'.heap }
+    | (.error (.throw msg tsp), st') =>
+      G.s.handlers = [] → ∃ K, ∀ quantum, K ≤ quantum → ∀ vfuel, ∃ s',
+        run G.code G.lim quantum none (vfuel + 1) (mkS G.s [⟨mangleFnName G.mod g, 0⟩] mp 0 stk mem st.world) =
+          .fatal "UncaughtThrow" msg tsp s' ∧ s'.st = { G.s.st with out := st'.out, heap := st'.heap }
     | _ => True := by
   have h := callV_correct (G.withPolls (G.s.polls + 1)) (hG.withPolls _) fuel g fd I stmts (hFn.withPolls _) sp []
     st [] mp stk mem ⟨hsp.heap, hsp.module, hsp.globals, hsp.depth⟩ hmp
@@ -279,6 +293,28 @@ theorem entry_run (G : GCtx) (hG : G.OK) (fuel : Nat) (g : String) (fd : FnDef) 
   cases res with
   | error ce =>
     cases ce <;> try trivial
+    case throw msg tsp =>
+      intro hh
+      obtain ⟨_, mem', hct, _⟩ := h
+      obtain ⟨k, s1, frames', mp', xs, e1, e2⟩ := hct 0
+      rw [hcode, hlim] at e1 e2
+      simp only [List.map_nil, List.nil_append] at e1
+      have e3 : exec1H G.code G.lim s1 = .intr (.throw msg tsp)
+          (mkS (G.withPolls (G.s.polls + 1)).s (frames' ++ []) mp' (0 + k + 1) (xs ++ stk) mem' st'.world) := by
+        rw [exec1H_of_throw e2]
+        unfold dispatch
+        have : (mkS (G.withPolls (G.s.polls + 1)).s (frames' ++ []) mp' (0 + k + 1) (xs ++ stk) mem' st'.world).handlers = [] := hh
+        rw [this]
+      have e4 : execHN G.code G.lim (k + 1) (mkS (G.withPolls (G.s.polls + 1)).s [⟨mangleFnName G.mod g, 0⟩] mp 0 stk mem
+          st.world) = .intr (.throw msg tsp)
+          (mkS (G.withPolls (G.s.polls + 1)).s (frames' ++ []) mp' (0 + k + 1) (xs ++ stk) mem' st'.world) := by
+        rw [execHN_add, e1]
+        simp only []
+        rw [execHN_one, e3]
+      refine ⟨k + 1, fun quantum hq vfuel =>
+        ⟨mkS (G.withPolls (G.s.polls + 1)).s (frames' ++ []) mp' (0 + k + 1) (xs ++ stk) mem' st'.world, ?_, rfl⟩⟩
+      obtain ⟨j, rfl⟩ : ∃ j, quantum = k + 1 + j := ⟨quantum - (k + 1), by omega⟩
+      rw [hrun, runQuantum_of_execHN_throw G.code G.lim j (k + 1) _ _ _ _ e4]
     intro hk
     obtain ⟨k, s', hk', h1, _⟩ := h hk 0
     rw [hcode, hlim] at hk'
@@ -306,7 +342,7 @@ theorem FnVoidOK.of_relocate (G : GCtx) (fd : FnDef) (stmts : List Stmt) (φ : S
     (hcode : findCode G.code (mangleFnName G.mod fd.name) = some (renameVars r))
     (hslot : ∀ m ∈ varNames r, slotFn r m < (fnParts G.mod φ fd stmts none scopes0 vm0 lm0).envE.nv)
     (hframe : (fnParts G.mod φ fd stmts none scopes0 vm0 lm0).envE.nv ≤ G.F)
-    (okS : Frag.okGSs false stmts = true)
+    (okS : Frag.okGSs false true stmts = true)
     (wsS : Frag.wsGSs G.mod fd.name φ [] stmts (fnParts G.mod φ fd stmts none scopes0 vm0 lm0).envB = true)
     (tParams : ∀ p ∈ fd.params, p.name ∈ T) (tIdents : ∀ x ∈ Frag.identsGSs stmts, x ∈ T)
     (key : cleanupKey G.mod fd.name ∉ T)
